@@ -19,7 +19,8 @@ func (w *World) CheckClose(o *Obs) []Violation {
 	for _, i := range w.P.Instances {
 		// what counts is the published version: a closer that a post-processor replaced by an
 		// object without Close() is no closer any more (and must not keep the others from being closed)
-		if w.Types[i.Type].Role == "closer" && w.Types[w.pubType(i.ID)].Role == "closer" {
+		isCloser := func(t *sdl.Type) bool { return t.Role == "closer" || t.AlsoCloser }
+		if isCloser(w.Types[i.Type]) && isCloser(w.Types[w.pubType(i.ID)]) {
 			closers = append(closers, i.ID)
 		}
 	}
@@ -79,7 +80,7 @@ func (w *World) CheckClose(o *Obs) []Violation {
 		}
 	}
 	for _, c := range sdl.SortedKeys(entered) {
-		if w.Insts[c] == nil || w.Types[w.Insts[c].Type].Role != "closer" {
+		if w.Insts[c] == nil || !(w.Types[w.Insts[c].Type].Role == "closer" || w.Types[w.Insts[c].Type].AlsoCloser) {
 			vs = append(vs, v("C14", "non-closer-closed", c, fmt.Sprintf("%s is not a registered closer but its Close was invoked", c)))
 		}
 	}
